@@ -98,9 +98,17 @@ fn one_case<G: HG, const N: usize>(ctx: &mut Ctx, idx: usize) {
         }
     } else {
         let h = if ctx.prng.gen_range(0..8) == 0 { Scalar::zero() } else { nonzero(&mut ctx.prng) };
-        let gs: Vec<Scalar> = (0..N)
+        let mut gs: Vec<Scalar> = (0..N)
             .map(|_| if ctx.prng.gen_range(0..12) == 0 { Scalar::zero() } else { nonzero(&mut ctx.prng) })
             .collect();
+        // parameter sets in which two generators coincide (h = g_i, g_i = g_j) or are negatives of each other:
+        // the commitment is still the exact Pedersen map and verify_opening still accepts iff equal
+        match ctx.prng.gen_range(0..8) {
+            0 => { let i = ctx.prng.gen_range(0..N); gs[i] = h; ctx.count("params:h-equals-a-generator"); }
+            1 if N >= 2 => { let (i, j) = (ctx.prng.gen_range(0..N), ctx.prng.gen_range(0..N)); gs[i] = gs[j]; ctx.count("params:two-generators-equal"); }
+            2 => { let i = ctx.prng.gen_range(0..N); gs[i] = -h; ctx.count("params:generator-is-minus-h"); }
+            _ => {}
+        }
         (params_from::<G, N>(&book, &h, &gs), h, gs)
     };
     ctx.count(if generated { "params:generated" } else { "params:explicit" });
